@@ -561,8 +561,17 @@ def analyse_todo_skip(db, rep):
 
 # =============================================================================== del_dochan
 class DelHooks(SendHooks):
-    tracked = frozenset(['G:tododir', 'G:flagexitasap', 'G:dline', 'G:todoline', 'G:flagcleanup', 'G:concurrency', 'G:d'])
+    tracked = frozenset(['G:tododir', 'G:flagexitasap', 'G:dline', 'G:todoline', 'G:flagcleanup', 'G:concurrency', 'G:d', 'G:jo'])
     CONC = 2       # configured concurrency in the explored geometry
+    JOB = 1        # every delivery slot of the explored geometry belongs to this job
+
+    def __init__(self, dying=0, c=None):
+        super().__init__()
+        self.dying = dying      # the job's message has been in the queue too long
+        self.chan = c
+
+    def chan_of(self, E):
+        return self.chan
 
     def materialize_split(self, E, path):
         if path.startswith('G:d[') and path.endswith('.used'):
@@ -571,7 +580,7 @@ class DelHooks(SendHooks):
 
     def slot_ok(self, E, x, what):
         """the report's delivery number names a slot below concurrency[c] that is in use"""
-        c = g1(E, 'del_dochan::P:c')
+        c = self.chan_of(E)
         b = g1(E, '$delbyte')
         num = b & 255 if isinstance(b, int) else None
         used = g1(E, 'G:d[%s][%s].used' % (c, num)) if num is not None else None
@@ -593,17 +602,8 @@ class DelHooks(SendHooks):
     def prim_fmt_ulong(self, E, x, args):
         return [Outcome(ret=TOP)]
 
-    def on_branch(self, E, cond, truth):
-        p = cond.strip().path() if cond is not None else None
-        if p and p.endswith('.flagdying'):
-            E.set('$dying', fs(1 if truth else 0))
-        c = cond.strip()
-        # classify the report letter when it is tested directly
-        if c.k == 'bin' and c.op == '==' and c.args[1].const == ord('Z') and 'dline' in c.args[0].src() and truth in (True, False):
-            pass
-
     def letter(self, E):
-        c = g1(E, 'del_dochan::P:c')
+        c = self.chan_of(E)
         v = E.get('G:dline[%s].s[1]' % c)
         if v is TOP or len(v) != 1:
             return None
@@ -613,7 +613,7 @@ class DelHooks(SendHooks):
         self.count('mark')
         self.slot_ok(E, x, 'markdone()')
         L0 = g1(E, '$letter')
-        dying = g1(E, '$dying')
+        dying = self.dying
         ok = L0 in ('K', 'D') or (L0 == 'Z' and dying == 1)
         self.site('del:DONE-only-for-K-or-D-(Z-when-expired)', x, ok, 'markdone() for a report %r (flagdying=%s)' % (L0, dying), E)
         if L0 != 'K':
@@ -621,7 +621,7 @@ class DelHooks(SendHooks):
                       'recipient marked done for a %r report before its bounce text was appended: a crash in between loses the recipient silently' % L0, E)
         b_ = g1(E, '$delbyte')
         num_ = b_ & 255 if isinstance(b_, int) else None
-        self.site('del:mark-position-is-the-delivery\'s-mpos', x, num_ is not None and g1v(args[2]) == 9000 + num_ and g1v(args[0]) == g1(E, 'del_dochan::P:c'),
+        self.site('del:mark-position-is-the-delivery\'s-mpos', x, num_ is not None and g1v(args[2]) == 9000 + num_ and g1v(args[0]) == self.chan_of(E),
                   'markdone(channel %s, ..., position %s) for delivery %s whose recorded mark position is %s' % (g1v(args[0]), g1v(args[2]), num_, 9000 + num_ if num_ is not None else '?'), E)
         E.set('$marked', fs(min(g1(E, '$marked', 0) + 1, 2)))
         return [Outcome(ret=TOP, log='markdone')]
@@ -630,7 +630,7 @@ class DelHooks(SendHooks):
         self.count('bounce')
         self.slot_ok(E, x, 'addbounce()')
         L0 = g1(E, '$letter')
-        dying = g1(E, '$dying')
+        dying = self.dying
         self.site('del:bounce-only-for-D-(Z-when-expired)', x, L0 == 'D' or (L0 == 'Z' and dying == 1), 'addbounce() for a report %r (flagdying=%s)' % (L0, dying), E)
         E.set('$bounced', fs(1))
         return [Outcome(ret=TOP, log='addbounce')]
@@ -638,7 +638,7 @@ class DelHooks(SendHooks):
     def prim_job_close(self, E, x, args):
         self.slot_ok(E, x, 'job_close()')
         L0 = g1(E, '$letter')
-        dying = g1(E, '$dying')
+        dying = self.dying
         must_mark = L0 in ('K', 'D') or (L0 == 'Z' and dying == 1)
         self.site('del:K/D-reports-are-marked', x, (g1(E, '$marked', 0) == 1) == must_mark,
                   'report %r (flagdying=%s) handled with %d markdone() call(s)' % (L0, dying, g1(E, '$marked', 0)), E)
@@ -652,9 +652,11 @@ class DelHooks(SendHooks):
         return [Outcome(ret=TOP)]
 
     def on_assign(self, E, x, path, val):
-        if path.endswith('.numtodo'):
+        if path and path.endswith('.numtodo'):
             self.slot_ok(E, x, '--numtodo')
             E.set('$dec', fs(min(g1(E, '$dec', 0) + 1, 2)))
+        if path is None:
+            return
         if path.endswith('.used') and val == fs(0):
             self.site('del:slot-freed-only-after-job_close', x, g1(E, '$closed', 0) == 1, 'delivery slot freed without job_close()', E)
             E.set('$freed', fs(min(g1(E, '$freed', 0) + 1, 3)))
@@ -664,7 +666,7 @@ class DelHooks(SendHooks):
             self.site('del:slot-release-and-counter-decrement-come-together', x, g1(E, '$freed', 0) == g1(E, '$cdec', 0) == g1(E, '$closed', 0),
                       'one report: %d slot(s) freed, concurrencyused changed %d time(s), %d job_close() call(s)' % (g1(E, '$freed', 0), g1(E, '$cdec', 0), g1(E, '$closed', 0)), E)
             # end of this report: reset the per-report monitors; the next report has the same letter
-            for k in ('$marked', '$dec', '$bounced', '$closed', '$dying', '$freed', '$cdec'):
+            for k in ('$marked', '$dec', '$bounced', '$closed', '$freed', '$cdec'):
                 E.store.pop(k, None)
             L0 = g1(E, '$letter')
             if L0:
@@ -682,14 +684,16 @@ def analyse_del_dochan(db, rep):
     counts = {}
     for c in (0, 1):
         for letter in ('K', 'Z', 'D', 'x'):
-            for delbyte in (0, 1, 2, -56):          # delivery numbers 0, 1 (in range), 2, 200 (out of range)
-                H = DelHooks()
+            for delbyte, dying in ((0, 0), (1, 0), (2, 0), (-56, 0), (0, 1), (1, 1)):          # delivery numbers 0, 1 (in range), 2, 200 (out of range)
+                H = DelHooks(dying, c)
                 eng = Engine(db, prog, H, max_states=300000)
-                # the letter and the delivery number are facts about the input
-                st = {'del_dochan::P:c': fs(c), 'G:dline[%d].s[1]' % c: fs(ord(letter)), '$letter': fs(letter),
-                      'G:dline[%d].s[0]' % c: fs(delbyte), '$delbyte': fs(delbyte), 'G:concurrency[%d]' % c: fs(DelHooks.CONC)}
+                # the letter, the delivery number and the age of the message are facts about the input
+                st = {'%s::%s' % (eng.frame_id(fn), fn.params[0]): fs(c), 'G:dline[%d].s[1]' % c: fs(ord(letter)), '$letter': fs(letter),
+                      'G:dline[%d].s[0]' % c: fs(delbyte), '$delbyte': fs(delbyte), 'G:concurrency[%d]' % c: fs(DelHooks.CONC),
+                      'G:jo[%d].flagdying' % DelHooks.JOB: fs(dying), 'G:jo[%d].numtodo' % DelHooks.JOB: fs(3), 'G:jo[%d].id' % DelHooks.JOB: fs(77)}
                 for i_ in range(DelHooks.CONC):
                     st['G:d[%d][%d].mpos' % (c, i_)] = fs(9000 + i_)       # each slot's recorded mark position is recognisable
+                    st['G:d[%d][%d].j' % (c, i_)] = fs(DelHooks.JOB)
                 eng.run(fn, st)
                 rep.count_states(eng.states, eng.transitions)
                 for k, v in H.sites.items():
@@ -706,7 +710,7 @@ def analyse_del_dochan(db, rep):
 class ReportBufHooks(DelHooks):
     """del_dochan() with the report buffer already REPORTMAX bytes long: one more byte arrives"""
     def __init__(self, byte, rmax, c):
-        super().__init__()
+        super().__init__(0, c)
         self.byte = byte
         self.rmax = rmax
         self.c = c
@@ -787,7 +791,7 @@ def analyse_report_buffer(db, rep):
             for start in (rmax, rmax - 1, 5):
                 H = ReportBufHooks(byte, rmax, c)
                 eng = Engine(db, prog, H)
-                st = {'del_dochan::P:c': fs(c), 'G:dline[%d].len' % c: fs(start), 'G:dline[%d].s[0]' % c: fs(0), 'G:dline[%d].s[1]' % c: fs(ord('K')),
+                st = {'%s::%s' % (eng.frame_id(fn), fn.params[0]): fs(c), 'G:dline[%d].len' % c: fs(start), 'G:dline[%d].s[0]' % c: fs(0), 'G:dline[%d].s[1]' % c: fs(ord('K')),
                       'G:concurrency[%d]' % c: fs(2), 'G:d[%d][0].used' % c: fs(1), 'G:d[%d][0].j' % c: fs(1), 'G:d[%d][0].mpos' % c: fs(9000), 'JO[1].flagdying': fs(0), 'JO[1].numtodo': fs(1)}
                 eng.run(fn, st)
                 rep.count_states(eng.states, eng.transitions)
